@@ -96,21 +96,24 @@ Definition write_call {E : Type} (r : wrule) (f : file E) (es : list E) : file E
 Definition write_calls {E : Type} (r : wrule) (calls : list (list E)) : file E :=
   fold_left (write_call r) calls (open_run r).
 
-(* THE SWITCH (finding F9): the rule followed by write_changed_genotypes and write_recombination_list *)
-Definition current_rule : wrule := PerCall.
+(* THE SWITCH (finding F9): the rule followed by write_changed_genotypes and write_recombination_list.
+   old_rule: before commit 1fd343a of /repo (kept for the _refuted witnesses); repaired_rule: the code as it is. *)
+Definition old_rule : wrule := PerCall.
 Definition repaired_rule : wrule := PerRun.
 
 (* coordinate written into the `position` column of the changed-genotype list:
-   the current code prints variant.position (0-based); the other two lists print position + 1 (= VCF POS) *)
+   before commit a4e9ec3 the code printed variant.position (0-based, old_posrule); now, like the other two
+   lists, position + 1 (= VCF POS) *)
 Inductive posrule : Type := ZeroBased | OneBased.
 Definition pos_shift (p : posrule) : Z := match p with ZeroBased => 0 | OneBased => 1 end.
-Definition current_posrule : posrule := ZeroBased.
+Definition old_posrule : posrule := ZeroBased.
 Definition repaired_posrule : posrule := OneBased.
 
-(* find_recombination on a family without accessible position: the current code trips its length assertion
-   (both cost computers return [0] for an empty position list); the repair returns no event *)
+(* find_recombination on a family without accessible position: before commit 341691b the code tripped its
+   length assertion (both cost computers return [0] for an empty position list; old_emptyrule); now it
+   returns no event *)
 Inductive emptyrule : Type := Strict | EmptyOk.
-Definition current_emptyrule : emptyrule := Strict.
+Definition old_emptyrule : emptyrule := Strict.
 Definition repaired_emptyrule : emptyrule := EmptyOk.
 
 (* ------------------------------------------------------------------ data of a run *)
@@ -457,8 +460,8 @@ Definition run (gt_rule rec_rule : wrule) (pr : posrule) (er : emptyrule) (o : o
                   (map cr_vcf rs))
   end.
 
-Definition run_current := run current_rule current_rule current_posrule current_emptyrule.
-Definition run_repaired := run repaired_rule repaired_rule repaired_posrule repaired_emptyrule.
+Definition run_old := run old_rule old_rule old_posrule old_emptyrule.
+Definition run_phase := run repaired_rule repaired_rule repaired_posrule repaired_emptyrule.
 
 (* all (chromosome, family) instances that the run processes, in processing order *)
 Definition instances (cs : list chrom) : list (chrom * inst) :=
@@ -529,6 +532,16 @@ Fixpoint perm_eqb {A : Type} (eqb : A -> A -> bool) (a b : list A) : bool :=
   | [] => match b with [] => true | _ => false end
   | x :: t => match remove_first eqb x b with
               | Some b' => perm_eqb eqb t b'
+              | None => false
+              end
+  end.
+
+(* multiset inclusion *)
+Fixpoint msub {A : Type} (eqb : A -> A -> bool) (a b : list A) : bool :=
+  match a with
+  | [] => true
+  | x :: t => match remove_first eqb x b with
+              | Some b' => msub eqb t b'
               | None => false
               end
   end.
@@ -676,9 +689,60 @@ Definition spec_rec_sound (cs : list chrom) (ob : observed) : bool :=
 (* the events of every processed (chromosome, family) are all there, and nothing else *)
 Definition spec_rec_cover (cs : list chrom) (ob : observed) : bool :=
   match entries_of (ob_recs ob),
-        map_opt (fun ci => inst_rec_entries current_emptyrule (c_name (fst ci)) (snd ci)) (instances cs) with
+        map_opt (fun ci => inst_rec_entries repaired_emptyrule (c_name (fst ci)) (snd ci)) (instances cs) with
   | Some es, Some calls => perm_eqb ce_eqb es (concat calls)
   | _, _ => false
+  end.
+
+(* ---- recombination list, event by event (implementation independent).
+   The events of a family, as find_recombination defines them: for a trio k, two variants p < q of one phase
+   set with no variant of that set in between, p not being the first variant of the set
+   (`for i in range(2, len(block))`), at which the trio's transmission values differ. *)
+Definition trio_cols (i : inst) (k : nat) : list col :=
+  combine (i_positions i) (combine (tv_of_trio (length (i_trios i)) k (i_tv i)) (i_costs i)).
+
+Definition set_neighbours (comps : list (Z * Z)) (p q : Z) : bool :=
+  match lookup p comps, lookup q comps with
+  | Some a, Some b =>
+      (a =? b) && (p <? q)
+      && negb (existsb (fun rc => (snd rc =? a) && (p <? fst rc) && (fst rc <? q)) comps)
+      && existsb (fun rc => (snd rc =? a) && (fst rc <? p)) comps
+  | _, _ => false
+  end.
+
+Definition expected_event (chromname : Z) (i : inst) (k : nat) (child p q : Z) : option rec_entry :=
+  match lookup p (trio_cols i k), lookup q (trio_cols i k) with
+  | Some (ta, _), Some (tb, cb) =>
+      if set_neighbours (i_comps i) p q && negb (ta =? tb)
+      then Some (mkCE child chromname (p + 1) (q + 1) (ta mod 2) (tb mod 2) (ta / 2) (tb / 2) cb)
+      else None
+  | _, _ => None
+  end.
+
+Definition expected_recs (chromname : Z) (i : inst) : list rec_entry :=
+  flat_map (fun kt =>
+    flat_map (fun p =>
+      flat_map (fun q => match expected_event chromname i (fst kt) (fst (snd kt)) p q with
+                         | Some e => [e]
+                         | None => []
+                         end) (i_positions i)) (i_positions i))
+    (combine (seq 0 (length (i_trios i))) (i_trios i)).
+
+Definition all_expected_recs (cs : list chrom) : list rec_entry :=
+  flat_map (fun ci => expected_recs (c_name (fst ci)) (snd ci)) (instances cs).
+
+(* every listed line is a transmission change of its family between neighbouring variants of one phase set,
+   with the haplotype columns and cost of that change (nothing fabricated) *)
+Definition spec_rec_genuine (cs : list chrom) (ob : observed) : bool :=
+  match entries_of (ob_recs ob) with
+  | None => false
+  | Some es => msub ce_eqb es (all_expected_recs cs)
+  end.
+(* every such change of every processed (chromosome, family) is listed (nothing missing) *)
+Definition spec_rec_complete (cs : list chrom) (ob : observed) : bool :=
+  match entries_of (ob_recs ob) with
+  | None => false
+  | Some es => msub ce_eqb (all_expected_recs cs) es
   end.
 
 (* ---- level L2: model = implementation *)
@@ -701,16 +765,6 @@ Record case := mkCase {
   k_ob : observed;                           (* what the real run wrote *)
   k_inst_recs : option (list (option (list rec_entry)))   (* real write_recombination_list on each traced instance alone (None: AssertionError) *)
 }.
-
-(* multiset inclusion *)
-Fixpoint msub {A : Type} (eqb : A -> A -> bool) (a b : list A) : bool :=
-  match a with
-  | [] => true
-  | x :: t => match remove_first eqb x b with
-              | Some b' => msub eqb t b'
-              | None => false
-              end
-  end.
 
 Definition spec_gt_sound (d : Z) (cs : list chrom) (ob : observed) : bool :=
   vcf_aligned cs (ob_vcf ob) &&
@@ -740,6 +794,10 @@ Definition chk_rec_sound (k : case) : bool :=
   negb (o_recs (k_opts k)) || spec_rec_sound (k_cs k) (k_ob k).
 (* "the entries of a (chromosome, family)" are what the real write_recombination_list writes for that traced
    instance alone (k_inst_recs); without them, what the model's per-call function gives *)
+Definition chk_rec_genuine (k : case) : bool :=
+  negb (o_recs (k_opts k)) || spec_rec_genuine (k_cs k) (k_ob k).
+Definition chk_rec_complete (k : case) : bool :=
+  negb (o_recs (k_opts k)) || spec_rec_complete (k_cs k) (k_ob k).
 Definition chk_rec_cover (k : case) : bool :=
   negb (o_recs (k_opts k)) ||
   match k_inst_recs k with
@@ -750,48 +808,33 @@ Definition chk_rec_cover (k : case) : bool :=
   | None => spec_rec_cover (k_cs k) (k_ob k)
   end.
 
-(* the read list, the changed-genotype list and the output genotypes do not depend on --recombination-list:
-   they are compared with the run of the model without it (so that the empty-family rule does not matter) *)
-Definition no_recs (o : opts) : opts := mkOpts (o_reads o) (o_gts o) false.
-Definition with_run (gr rr : wrule) (pr : posrule) (er : emptyrule) (o : opts) (k : case) (f : outputs -> bool) : bool :=
-  match run gr rr pr er o (k_ids k) (k_samples k) (k_cs k) with
+(* ---- level L2: the files and the output genotypes are exactly those of the model of the code as it is
+   (run_phase: files opened once per run, VCF positions, no event for a family without accessible position) *)
+Definition with_run (k : case) (f : outputs -> bool) : bool :=
+  match run_phase (k_opts k) (k_ids k) (k_samples k) (k_cs k) with
   | Some out => f out
   | None => false
   end.
 Definition l2_reads (k : case) : bool :=
-  with_run current_rule current_rule current_posrule current_emptyrule (no_recs (k_opts k)) k
-           (fun out => file_eqb re_eqb (out_reads out) (ob_reads (k_ob k))).
+  with_run k (fun out => file_eqb re_eqb (out_reads out) (ob_reads (k_ob k))).
 Definition l2_vcf (k : case) : bool :=
-  with_run current_rule current_rule current_posrule current_emptyrule (no_recs (k_opts k)) k
-           (fun out => vcf_eqb (out_vcf out) (ob_vcf (k_ob k))).
-Definition l2_gts (gr : wrule) (pr : posrule) (k : case) : bool :=
-  with_run gr current_rule pr current_emptyrule (no_recs (k_opts k)) k
-           (fun out => file_eqb ge_eqb (out_gts out) (ob_gts (k_ob k))).
-Definition l2_recs (rr : wrule) (er : emptyrule) (k : case) : bool :=
-  with_run current_rule rr current_posrule er (k_opts k) k
-           (fun out => file_eqb ce_eqb (out_recs out) (ob_recs (k_ob k))).
+  with_run k (fun out => vcf_eqb (out_vcf out) (ob_vcf (k_ob k))).
+Definition l2_gts (k : case) : bool :=
+  with_run k (fun out => file_eqb ge_eqb (out_gts out) (ob_gts (k_ob k))).
+Definition l2_recs (k : case) : bool :=
+  with_run k (fun out => file_eqb ce_eqb (out_recs out) (ob_recs (k_ob k))).
 (* the per-call function of the model against the real function called on every traced instance *)
-Definition l2_inst_recs (er : emptyrule) (k : case) : bool :=
+Definition l2_inst_recs (k : case) : bool :=
   match k_inst_recs k with
   | None => true
   | Some real =>
       list_eqb (opt_eqb (list_eqb ce_eqb))
-               (map (fun ci => inst_rec_entries er (c_name (fst ci)) (snd ci)) (instances (k_cs k))) real
+               (map (fun ci => inst_rec_entries repaired_emptyrule (c_name (fst ci)) (snd ci)) (instances (k_cs k))) real
   end.
 
-(* crashed runs: the model also reaches its error value, and the error is find_recombination's assertion on an
-   instance without accessible positions whose cost vector is not empty *)
+(* crashed runs: does the model reach its error value as well? *)
 Definition model_crashes (k : case) : bool :=
-  match run_current (k_opts k) (k_ids k) (k_samples k) (k_cs k) with
+  match run_phase (k_opts k) (k_ids k) (k_samples k) (k_cs k) with
   | None => true
   | Some _ => false
   end.
-Definition crash_is_empty_instance (k : case) : bool :=
-  o_recs (k_opts k) &&
-  existsb (fun ci => match inst_rec_entries current_emptyrule (c_name (fst ci)) (snd ci) with
-                     | None => match i_positions (snd ci), i_costs (snd ci) with
-                               | [], _ :: _ => negb (match i_trios (snd ci) with [] => true | _ => false end)
-                               | _, _ => false
-                               end
-                     | Some _ => false
-                     end) (instances (k_cs k)).
